@@ -69,6 +69,7 @@ class Engine:
         self.fresh_id = 0
         self.sentinels = {}
         self.sentinel_terms = {}
+        self.sentinel_reals = {}
         self.batch = False
         self._pending = []
 
@@ -104,6 +105,27 @@ class Engine:
             self.sentinels[key] = hit
             self.sentinel_terms[int.__int__(hit[1])] = e
         return hit[1]
+
+    def sentinel_real(self, e):
+        key = ("r", e.get_id())
+        hit = self.sentinels.get(key)
+        if hit is None:
+            hit = (e, float(SENTINEL_BASE + 7919 * (len(self.sentinels) + 1)))
+            self.sentinels[key] = hit
+            self.sentinel_reals[int(hit[1])] = e
+        return hit[1]
+
+    def unsentinel_real(self, v):
+        """float or decimal text (as printed by %.2f / %.6f) -> SymReal if it is a sentinel, else float"""
+        f = float(v)
+        if f >= SENTINEL_BASE and f == int(f):
+            e = self.sentinel_reals.get(int(f))
+            if e is not None:
+                return SymReal(self, e)
+            e = self.sentinel_terms.get(int(f))
+            if e is not None:
+                return SymReal(self, z3.ToReal(e), int_term=e)
+        return f
 
     def unsentinel(self, v):
         """int or decimal text -> SymInt if it is a sentinel, else the int itself"""
@@ -368,6 +390,7 @@ class Engine:
             self.fresh_id = 0
             self.sentinels = {}
             self.sentinel_terms = {}
+            self.sentinel_reals = {}
             self._reached_this_path = False
             self._pending = []
             self.solver.push()
@@ -835,6 +858,10 @@ class SymReal:
         t = mk_int(s.g, z3.If(s.e >= 0, z3.ToInt(s.e), -z3.ToInt(-s.e)))
         return t if not isinstance(t, SymInt) else t.__int__()
 
+    # text rendering ("%.2f" % x): a unique sentinel float that the harness maps back (g.unsentinel_real)
+    def __float__(s):
+        return s.g.sentinel_real(s.e)
+
     def __repr__(s): return "SymReal(%s)" % s.e
 
 
@@ -935,6 +962,9 @@ class ConcreteEngine:
 
     def unsentinel(self, v):
         return int(v)
+
+    def unsentinel_real(self, v):
+        return float(v)
 
     def holds(self, cond):
         return bool(cond)
